@@ -176,7 +176,10 @@ def build_forecaster(spec):
     if k == "pipeline":
         from sktime.forecasting.compose import TransformedTargetForecaster
 
-        steps = [("t%d" % i, build_transformer(t)) for i, t in enumerate(spec["transformers"])]
+        # step names are arbitrary labels: in about half of the pipelines they are NOT in
+        # alphabetical order of their position (the order of the steps is the order of the list)
+        desc = sum(len(t["kind"]) for t in spec["transformers"]) % 2 == 0
+        steps = [(("t%s" % "zyxwvutsrq"[i]) if desc else ("t%d" % i), build_transformer(t)) for i, t in enumerate(spec["transformers"])]
         steps.append(("forecaster", build_forecaster(spec["forecaster"])))
         return TransformedTargetForecaster(steps)
     if k == "stack":
